@@ -217,6 +217,11 @@ def _q_grid_epochs(p, rows):
     """The staged rainfall instants within the span of the staged water levels, ascending (epoch is the
     primary key of the staging table)."""
     ensures(forall(0, len(rows), lambda j: forall(0, j, lambda i: rows[i][0] < rows[j][0])))
+    # ... within the span of the staged water levels (min_staged_wl / max_staged_wl / n_staged_wl: the same
+    # uninterpreted facts about water_level_staging that the contract of its SELECT in populate_water_level uses);
+    # two different instants within the span mean at least two staged water levels
+    ensures(forall(0, len(rows), lambda i: uf_int("min_staged_wl") <= rows[i][0] and rows[i][0] <= uf_int("max_staged_wl")))
+    ensures(implies(len(rows) >= 2, uf_int("n_staged_wl") >= 2))
 
 
 @sql("""INSERT INTO time_grid (source_time_zone, time_step_s) VALUES (?, ?)""", kind="insert")
